@@ -237,7 +237,7 @@ func execC17Client(c C17Case, bound time.Duration) (map[string]bool, error) {
 	}
 	frame1 := []byte(`{"parameters":{"n":1,"pad":"` + string(bytes.Repeat([]byte("p"), 40)) + `"},"continues":true}`)
 	firstReply := []byte(`{"parameters":{"first":true},"continues":true}` + "\x00")
-	coalesced := c.Coalesced && c.Instant == "partial" && c.Op != "send" && c.Op != "up-write"
+	coalesced := c.Coalesced && c.Instant == "partial" && c.Op != "send" && c.Op != "up-send" && c.Op != "up-write"
 	if coalesced {
 		firstReply = append(firstReply, frame1[:1+c.Partial%(len(frame1)-1)]...)
 	}
@@ -286,7 +286,7 @@ func execC17Client(c C17Case, bound time.Duration) (map[string]bool, error) {
 			facts["send-context-cancelled-after-send"] = true
 		}
 	}
-	writeOp := c.Op == "send" || c.Op == "up-write"
+	writeOp := c.Op == "send" || c.Op == "up-send" || c.Op == "up-write"
 	ctx, fire, cancel, deadlineAt := makeCtx(c.Trigger, c.Instant, writeOp)
 	defer cancel()
 	big := bytes.Repeat([]byte("W"), 8<<20)
@@ -318,7 +318,7 @@ func execC17Client(c C17Case, bound time.Duration) (map[string]bool, error) {
 			for total < len(big)+1 {
 				n, rerr := srv.Read(buf)
 				total += n
-				if c.Op == "send" && bytes.IndexByte(buf[:n], 0) >= 0 {
+				if (c.Op == "send" || c.Op == "up-send") && bytes.IndexByte(buf[:n], 0) >= 0 {
 					break
 				}
 				if rerr != nil {
@@ -341,6 +341,12 @@ func execC17Client(c C17Case, bound time.Duration) (map[string]bool, error) {
 			return opResult{err: e, data: out}
 		case "send":
 			_, e := cli.Send(ctx, "x.y.Big", map[string]string{"w": string(big)}, 0)
+			return opResult{err: e}
+		case "up-send": // Upgrade() is a send as well: it writes the call under its context
+			up, e := cli.Upgrade(ctx, "x.y.Big", map[string]string{"w": string(big)})
+			if e == nil && up == nil {
+				e = fmt.Errorf("Upgrade returned neither a receive function nor an error")
+			}
 			return opResult{err: e}
 		case "up-read":
 			buf := make([]byte, 4096)
@@ -461,7 +467,7 @@ func execC17Client(c C17Case, bound time.Duration) (map[string]bool, error) {
 				}
 				rest -= n
 			}
-		case "send", "up-write":
+		case "send", "up-send", "up-write":
 			select {
 			case <-peerDrain:
 			case <-time.After(bound):
@@ -1020,13 +1026,13 @@ var propC17 = Register(Prop[C17Case]{ID: "C17", Name: "C17", Pending: true, Chec
 func c17Cells() []C17Case {
 	var cells []C17Case
 	for _, tr := range []string{"unix", "tcp", "pipe", "bridge"} {
-		for _, op := range []string{"receive", "call", "send", "up-read", "up-readbytes", "up-write", "up-receive"} {
+		for _, op := range []string{"receive", "call", "send", "up-read", "up-readbytes", "up-write", "up-receive", "up-send"} {
 			for _, trig := range []string{"cancel", "deadline", "none"} {
 				for _, inst := range []string{"before", "blocked", "partial", "after"} {
 					if trig == "none" && inst != "after" {
 						continue
 					}
-					if (op == "send" || op == "up-write" || op == "up-read") && inst == "partial" {
+					if (op == "send" || op == "up-send" || op == "up-write" || op == "up-read") && inst == "partial" {
 						continue // (a raw Read with bytes available simply returns them: same as "after")
 					}
 					if op == "call" && inst == "after" {
@@ -1039,7 +1045,7 @@ func c17Cells() []C17Case {
 					if inst == "partial" && op != "call" {
 						cells = append(cells, C17Case{Side: "client", Op: op, Transport: tr, Trigger: trig, Instant: inst, Partial: 17, Follow: 2, Coalesced: true})
 					}
-					if trig == "deadline" && (inst == "after" || inst == "blocked") && op != "send" && op != "up-write" {
+					if trig == "deadline" && (inst == "after" || inst == "blocked") && op != "send" && op != "up-send" && op != "up-write" {
 						cells = append(cells, C17Case{Side: "client", Op: op, Transport: tr, Trigger: trig, Instant: inst, Partial: 17, Follow: 2, Background: true})
 					}
 					if (op == "up-read" || op == "up-readbytes") && inst == "blocked" && trig != "none" {
